@@ -104,6 +104,26 @@ class _Hung(Exception):
     pass
 
 
+def _debug_logging():
+    """Run the code as a host application with logging configured at DEBUG would: every
+    `logging.debug(...)` / `isEnabledFor(DEBUG)` branch is live.  Records go to a NullHandler.
+    Returns the function that restores the previous state."""
+    import logging
+    root = logging.getLogger()
+    prev_disable, prev_level = root.manager.disable, root.level
+    h = logging.NullHandler()
+    prev_handlers = list(root.handlers)  # e.g. the StreamHandler an earlier logging.error() installed
+    root.handlers[:] = [h]
+    root.setLevel(logging.DEBUG)
+    logging.disable(logging.NOTSET)
+
+    def restore():
+        logging.disable(prev_disable)
+        root.setLevel(prev_level)
+        root.handlers[:] = prev_handlers
+    return restore
+
+
 class _AfterFirst:
     """Write-stream proxy: runs `hook()` right after the first successful send."""
 
@@ -124,7 +144,15 @@ def _helpers():
     """name -> (callable(read, write, timeout_s) -> awaitable, kind)   kind: 'result' | 'bool'"""
     from . import helpers
     hs, _ = helpers.discover()
-    return {k: (v[0], v[1]) for k, v in hs.items()}
+    out = {k: (v[0], v[1]) for k, v in hs.items()}
+    # send_initialize is a typed request helper too; it is driven only on its ERROR path here (its
+    # success path is C03's subject), where it has one documented mapping of its own
+    try:
+        from chuk_mcp.protocol.messages.initialize.send_messages import send_initialize
+        out["send_initialize"] = ((lambda r, w, t: send_initialize(r, w, timeout=t)), "init")
+    except Exception:
+        pass
+    return out
 
 
 async def _one(case, token, obs):
@@ -210,9 +238,22 @@ async def _one(case, token, obs):
     # harness guard: a call that is still running this long after its own deadline is cut off and
     # reported as "hung" (an outcome of its own; the oracles decide what it means)
     guard_s = D_s + 4 * P_TICKS_DEFAULT * vloop.TICK + 1.0
+    hung = {"v": False}
+
+    def release():
+        # the guard instant: a call still running is hung.  A write the code shields from
+        # cancellation cannot be cut off by the scope below, so the stalled writer is let go
+        # (the peer "starts reading again"); whatever the call then does, it is reported as hung.
+        hung["v"] = True
+        if wmode == "blocked":
+            drain.final = True
+            drain()
+
+    loop.at(t0 + case["D"] + 4 * P_TICKS_DEFAULT + 1024, release)
+    restore_logging = _debug_logging() if case.get("debug") else None
     try:
         res = _HUNG
-        with anyio.move_on_after(guard_s):
+        with anyio.move_on_after(guard_s + vloop.TICK):
             if helper:
                 fn, _kind = _helpers()[helper]
                 res = await fn(in_recv, out_send, D_s)
@@ -229,7 +270,7 @@ async def _one(case, token, obs):
                     import copy
                     params = copy.deepcopy(params)
                 res = await send_message(in_recv, out_send, case.get("method", "tools/list"), params, timeout=D_s, **kwargs)
-        if res is _HUNG:
+        if res is _HUNG or hung["v"]:
             raise _Hung()
         obs["outcome"] = "returned"
         if hasattr(res, "model_dump"):
@@ -238,9 +279,9 @@ async def _one(case, token, obs):
     except _Hung:
         obs["outcome"] = "hung"
     except TimeoutError:
-        obs["outcome"] = "timeout"
+        obs["outcome"] = "hung" if hung["v"] else "timeout"
     except CancelledError:
-        obs["outcome"] = "cancelled"
+        obs["outcome"] = "hung" if hung["v"] else "cancelled"
     except (RetryableError, NonRetryableError) as ex:
         obs["outcome"] = "raised"
         obs["retryable"] = isinstance(ex, RetryableError)
@@ -250,6 +291,8 @@ async def _one(case, token, obs):
         obs["outcome"] = "exception"
         obs["exc"] = type(ex).__name__
         obs["text"] = str(ex)[:200]
+    if restore_logging is not None:
+        restore_logging()
     obs["t"] = loop.ticks - t0
     obs["start"] = t0
     drain.final = True
